@@ -1,4 +1,4 @@
-CONSTANTS TS = {5,6,7,8,9,10,11,12,13,14,15,16}  Vs = {"i1","i3","f","s","m"}  Durs = {1,2,3,5}  Caps = {1,2,3,8}  MaxEv = 12  MaxOps = 12
+CONSTANTS TS = {5,6,7,8,9,10,11,12,13,14,15,16}  Vs = {"i1","i3","f","s","m"}  Durs = {1,2,3,5}  Caps = {1,2,3,8}  MaxEv = 12  Machines <- AllMachines  MaxOps = 12
 INIT Init
 NEXT Next
 VIEW View
